@@ -177,7 +177,8 @@ Print Assumptions C14_e2e_judge_reflects.
 Theorem C14_e2e_start_ok_spec : forall s t vm u b,
   C14_e2e_run.start_ok s t vm u b = true <->
   ~ In u (map snd (j_live s)) /\ ~ In u (map snd (j_infl s)) /\
-  In u (j_locked s) /\ (forall tc, lookZ u (j_cancelled s) = Some tc -> t <= tc + grace) /\
+  (In u (j_locked s) \/ exists tu, lookZ u (j_unlocked s) = Some tu /\ t <= tu + grace) /\
+  (forall tc, lookZ u (j_cancelled s) = Some tc -> t <= tc + grace) /\
   b = false /\ (forall tb, lookZ vm (j_bad s) = Some tb -> t <= tb + grace).
 Proof. exact start_ok_spec. Qed.
 Print Assumptions C14_e2e_start_ok_spec.
